@@ -134,6 +134,8 @@ def assume_none(t, x):
 
 def split_ite_none(v):
     """V = ite(c, A, None) | ite(c, None, A) -> (c_keep, A) where c_keep is the condition for keeping A."""
+    if v[0] == "or" and len(v[1]) == 2 and v[1][1] == NONE and v[1][0] != NONE:
+        return v[1][0], v[1][0]  # `A or None` is `A if A else None`
     if v[0] != "ite":
         return None
     c, a, b = v[1], v[2], v[3]
